@@ -55,6 +55,12 @@ theorem Post.bind_any {α β : Type} {x : Except Fault α} {f : α → Except Fa
     {P : β → Prop} (hf : ∀ a, Post (f a) P) : Post (x >>= f) P :=
   Post.bind (Q := fun _ => True) (fun _ _ => trivial) (fun a _ => hf a)
 
+theorem Post.ite {α : Type} {c : Prop} [Decidable c] {a b : Except Fault α} {P : α → Prop}
+    (ht : c → Post a P) (he : ¬ c → Post b P) : Post (if c then a else b) P := by
+  split
+  · exact ht ‹_›
+  · exact he ‹_›
+
 theorem Post.mono {α : Type} {x : Except Fault α} {P Q : α → Prop} (h : Post x P)
     (hpq : ∀ a, P a → Q a) : Post x Q := fun a ha => hpq a (h a ha)
 
@@ -125,13 +131,14 @@ macro_rules | `(tactic| post_known) => `(tactic| exact failAt_post (by assumptio
 `line`, `col`, `base` -/
 macro "post_leaf" : tactic => `(tactic| first
   | exact Post.error
-  | (refine Post.pure ?_; assumption)
-  | (refine Post.ok ?_; assumption))
+  | (refine Post.pure ?_; first | assumption | exact trivial)
+  | (refine Post.ok ?_; first | assumption | exact trivial))
 
 macro "post_step" : tactic => `(tactic| first
   | post_leaf
   | post_known
   | refine Post.bind_any (fun _ => ?_)
+  | refine Post.ite (fun _ => ?_) (fun _ => ?_)
   | split
   | dsimp only)
 
@@ -151,11 +158,12 @@ theorem numFinish_post {E : Env} {st : St} {k : CtxKey} {c0 : UInt8} {s : NumSt}
   unfold numFinish
   post_run
 
+macro_rules | `(tactic| post_known) => `(tactic| exact numFinish_post (by assumption))
+
 theorem lexNumber_post {E : Env} {st : St} {k : CtxKey} (h : ctxOf st = k) :
     Post (lexNumber E st) (FInv k) := by
   unfold lexNumber
   post_run
-  exact numFinish_post h
 
 /-! ## interpreted strings -/
 
@@ -245,10 +253,11 @@ theorem walkCode_post {E : Env} {k : CtxKey} : ∀ (n i : Nat) (st : St), ctxOf 
       · exact h
 
 macro_rules | `(tactic| post_known) => `(tactic| exact op_post (by assumption))
-macro_rules | `(tactic| post_known) =>
-  `(tactic| refine Post.bind (autoSemi_post (by assumption)) (fun s hs => ?_))
-macro_rules | `(tactic| post_known) =>
-  `(tactic| refine Post.bind (walkCode_post _ _ _ (by assumption)) (fun s hs => ?_))
+macro_rules
+  | `(tactic| post_known) => `(tactic| refine Post.bind (autoSemi_post (by assumption)) (fun s hs => ?_))
+macro_rules
+  | `(tactic| post_known) => `(tactic| refine Post.bind (walkCode_post _ _ _ (by assumption)) (fun s hs => ?_))
+macro_rules | `(tactic| post_known) => `(tactic| refine lit_post ?_)
 
 theorem codeSlash_post {E : Env} {st : St} {k : CtxKey} {loc : CodeLoc} {c1 : Option UInt8}
     (h : ctxOf st = k) : Post (codeSlash E st loc c1) (CodeInv k) := by
@@ -275,8 +284,11 @@ theorem codeIdent_post {E : Env} {endT : Nat} {st : St} {k : CtxKey} {loc : Code
     split
     · exact Post.pure hx
     · refine Post.bind (lexIdent_post h) (fun r hr => ?_)
-      split
       exact Post.pure hr
+
+macro_rules | `(tactic| post_known) => `(tactic| exact codeSlash_post (by assumption))
+macro_rules | `(tactic| post_known) => `(tactic| exact codePercent_post (by assumption) (by assumption))
+macro_rules | `(tactic| post_known) => `(tactic| exact codeIdent_post (by assumption) (by assumption))
 
 theorem codeStep_post {E : Env} {endT : Nat} {st : St} {k : CtxKey} {loc : CodeLoc}
     (hne : endT ≠ tokenEndStatement) (h : ctxOf st = k) :
@@ -286,17 +298,7 @@ theorem codeStep_post {E : Env} {endT : Nat} {st : St} {k : CtxKey} {loc : CodeL
   dsimp only
   split
   · exact op_post h
-  · repeat' split
-    all_goals first
-      | exact op_post h
-      | exact lit_post (lexInterpretedString_post h)
-      | exact lit_post (lexRawString_post h)
-      | exact lit_post (lexRuneLiteral_post h)
-      | exact lit_post (lexNumber_post h)
-      | exact codeSlash_post h
-      | exact codePercent_post hne h
-      | exact codeIdent_post hne h
-      | post_run
+  · post_run
 
 theorem codeLoop_post {E : Env} {endT : Nat} {k : CtxKey} (hne : endT ≠ tokenEndStatement) :
     ∀ (fuel : Nat) (st : St) (loc : CodeLoc), ctxOf st = k →
@@ -364,10 +366,3 @@ theorem lexStatements_sameCtx (E : Env) (st st' : St) (e : Option LexErr)
   lexBlock_sameCtx_of_ne E _ _ _ st st' e (by decide) h
 
 end ScriggoV.Lexer
-
-section
-open ScriggoV.Lexer
-#print axioms lexCode_show_sameCtx
-#print axioms lexShow_sameCtx
-#print axioms lexStatements_sameCtx
-end
